@@ -92,8 +92,23 @@ def r18_3(prog, rep):
             continue
         rep.fn(body)
         key = 'R18.3|%s|' % body.nkey
-        pp = [b for b in body.calls() if cnorm(b.term) in ('pem::parse', 'pem::parser::parse') or (b.term.cmethod == 'parse' and 'pem' in cnorm(b.term))]
-        ders = [b for b in body.calls() if cnorm(b.term).endswith(der)]
+        from ..inline import inlined_body
+        body = inlined_body(prog, body, skip=(der, 'parse_openssl_25519_pubkey_der', 'parse_openssl_25519_privkey_der'))   # a shared PEM-or-DER helper is examined in place
+
+        def is_der_call(t):
+            if t.kind != 'call':
+                return False
+            if 'indirect' in t.callee:
+                # call through a function pointer that is the DER parser reified (`parse_der: fn(&[u8]) -> ..` parameter of a shared helper)
+                ip = Op(t.callee['indirect'])
+                if ip.place is None:
+                    return False
+                o = origins(body, [ip.place[0]], through_calls=False)
+                fns = {(c.get('fn') or '') for c in o.consts}
+                return bool(fns) and all(f.endswith(der) for f in fns)
+            return cnorm(t).endswith(der)
+        pp = [b for b in body.calls() if 'indirect' not in b.term.callee and (cnorm(b.term) in ('pem::parse', 'pem::parser::parse') or (b.term.cmethod == 'parse' and 'pem' in cnorm(b.term)))]
+        ders = [b for b in body.blocks if not b.cleanup and is_der_call(b.term)]
         if len(pp) != 1 or not ders:
             rep.ob('R18.3', False, key + 'anchors', 'expected one pem::parse call and calls to %s (found %d / %d)' % (der, len(pp), len(ders)), body.loc())
             continue
